@@ -47,7 +47,7 @@ pub struct GenCfg {
 
 impl GenCfg {
     pub fn draw(r: &mut Rng, pagesize: u64) -> GenCfg {
-        let style = r.below(5) as u8;
+        let style = r.below(6) as u8;
         let mut w_val = [2, 6, 8, 4, 2, 1];
         // swarm: knock out some value classes
         for w in w_val.iter_mut() {
@@ -696,6 +696,16 @@ pub fn key_bytes(cfg: &GenCfg, i: u32) -> Vec<u8> {
             let len = 1 + (i as usize % 6);
             let mut v = vec![b'a' + (i / 6 % 26) as u8; len];
             v.push((i % 251) as u8);
+            v
+        }
+        5 => {
+            // keys of about half a page: two per leaf, and branch pages whose separators do not
+            // fit one page (oversized branch pages with overflow)
+            let mut v = format!("{:04}-", i.wrapping_mul(7919) % 10007).into_bytes();
+            let len = cfg.pagesize as usize / 2 + (i as usize * 13) % 120;
+            while v.len() < len {
+                v.push(b'L');
+            }
             v
         }
         _ => {
